@@ -59,6 +59,15 @@ def nasSuciOp : Handler
     | _, _ => badOp
   | _ => badOp
 
+/-- `regsuci <imsi> <mnc> <mcc>`: what RegisterUE sends for UE 0 of a configuration: the SUCI of the IMSI, split with the LENGTH
+    of the configured MNC; the values of the configured MNC / MCC do not enter it -/
+def regSuciOp : Handler
+  | [imsi, mnc, _mcc] =>
+    match hexArg mnc with
+    | some mnc => nasSuciOp [imsi, toString mnc.length]
+    | none => badOp
+  | _ => badOp
+
 def plmnSpec (imsi : Bytes) (mncLen : Int) (copies : Nat) : String :=
   match splitImsi (Model.Suci.trimImsiPrefix imsi) mncLen with
   | some (mcc, mnc, _) =>
@@ -114,6 +123,7 @@ open Suci in
 def suciHandlers : List (String × Handler) := [
   ("suci", suciOp),
   ("nassuci", nasSuciOp),
+  ("regsuci", regSuciOp),
   ("ngplmn", ngPlmnOp),
   ("ngplmn2", ngPlmn2Op),
   ("ngsetup", ngSetupOp)
